@@ -136,7 +136,7 @@ func (w *L1World) Observable(evs []*OutEvent, errs []string) string {
 // seqOutcomes enumerates every sequential order consistent with each task's program
 // order, runs each on a fresh real tracker (inline, no scheduling) followed by probes, and
 // returns the set of observables.
-func (w *L1World) seqOutcomes(pre []L1Op, prog [][]L1Op, probes []L1Op, limit int) (map[string]string, int) {
+func (w *L1World) seqOutcomes(pre []L1Op, preSleep time.Duration, prog [][]L1Op, probes []L1Op, limit int) (map[string]string, int) {
 	out := map[string]string{}
 	idx := make([]int, len(prog))
 	var order []L1Op
@@ -165,7 +165,11 @@ func (w *L1World) seqOutcomes(pre []L1Op, prog [][]L1Op, probes []L1Op, limit in
 			r := &Recorder{NoPoint: true}
 			tr := newTracker(r)
 			var errs []string
-			stuck := w.execAllInline(tr, append(append(append([]L1Op{}, pre...), order...), probes...), &errs)
+			stuck := w.execAllInline(tr, pre, &errs)
+			time.Sleep(preSleep)
+			if stuck == "" {
+				stuck = w.execAllInline(tr, append(append([]L1Op{}, order...), probes...), &errs)
+			}
 			obs := w.Observable(r.Events, errs)
 			if stuck != "" {
 				obs += " STUCK:" + stuck
